@@ -193,7 +193,7 @@ def run(chk):
         "could_be_html, get_hostname, has_special_host; answers compared with whole-label membership computed from the constructed "
         "host." % nd
     )
-    failures, tags = grid.run(chk, g, d, evaluate, target=4000)
+    failures, tags = grid.run(chk, g, d, evaluate, target=4000, shrink=(g.wit, g.wsimplify, fails_fn))
     n = chk.cov["states"]
     chk.add("transitions", n * (len(PREDS) * len(FORMS) + 6))
     chk.add("evaluations", n * len(PREDS) * len(FORMS))
@@ -203,4 +203,3 @@ def run(chk):
         chk.clause(PROP + ".host." + p, checked=n, nontrivial=tags.get("positive", 0))
     for c in ("implies", "is_homepage", "could_be_html", "get_hostname", "has_special_host"):
         chk.clause(PROP + "." + c, checked=n, nontrivial=tags.get("positive", 0))
-    core.reduce_failures(chk, [(c, g.wit(case), e, gg) for (c, case, e, gg) in failures], g.wsimplify, fails_fn)
